@@ -114,7 +114,7 @@ def hexDigit (n : Nat) : Char :=
 
 def hexOfByte (b : Byte) : List Char := [hexDigit (b.toNat / 16), hexDigit (b.toNat % 16)]
 
-def hexOfBytes (bs : Bytes) : String := String.mk (bs.flatMap hexOfByte)
+def hexOfBytes (bs : Bytes) : String := String.ofList (bs.flatMap hexOfByte)
 
 def hexVal (c : Char) : Option Nat :=
   if '0' ≤ c ∧ c ≤ '9' then some (c.toNat - 48)
